@@ -244,6 +244,23 @@ bool splinetable<Alloc>::read_fits_core(fitsfile* fits, const std::string& fileP
 					std::copy(value,value+valuelen,aux[i][1]);
 					aux[i][1][valuelen-1]='\0';
 				}
+				//Every release of a value (destructor, write_key, remove_key) passes
+				//strlen()+1 as the size, so the block must be exactly that long; the
+				//stored string is shorter than the raw card value once quotes are removed.
+				size_t storedlen=strlen(&aux[i][1][0])+1;
+				if(storedlen!=size_t(valuelen)){
+					char_ptr exact;
+					try{
+						exact=allocate<char>(storedlen);
+					}catch(...){
+						deallocate(aux[i][1],valuelen);
+						aux[i][1]=NULL;
+						throw;
+					}
+					std::copy(aux[i][1],aux[i][1]+storedlen,exact);
+					deallocate(aux[i][1],valuelen);
+					aux[i][1]=exact;
+				}
 				i++;
 			}
 		} else {
